@@ -43,7 +43,7 @@ m = {
     ],
     'checks': checks,
     'not_applicable': na,
-    'notes': 'check.py <ID> --tier quick|thorough; honours VERIF_SEED, VERIF_TIER, VERIF_REPO (self-validation only). See DESIGN.md section 9 (as built): 9.4 repairs made to /repo, 9.5 known findings, 9.7 seeded property-breaking changes (179, all caught with a failing input), 9.8 behaviour-preserving changes (54: 53 quiet, 1 reported without a failing input), 9.9 tabulated graphs, 9.10 coverage of the anchored code by the correspondence runs, 9.11 release/acquire model of the queue and the spin lock.',
+    'notes': 'check.py <ID> --tier quick|thorough; honours VERIF_SEED, VERIF_TIER, VERIF_REPO (self-validation only). See DESIGN.md section 9 (as built): 9.4 repairs made to /repo, 9.5 known findings, 9.7 seeded property-breaking changes (186, all caught with a failing input), 9.8 behaviour-preserving changes (54: 53 quiet, 1 reported without a failing input), 9.9 tabulated graphs, 9.10 coverage of the anchored code by the correspondence runs, 9.11 release/acquire model of the queue and the spin lock.',
 }
 with open(os.path.join(VERIF, 'MANIFEST.json'), 'w') as f:
     json.dump(m, f, indent=1)
